@@ -174,6 +174,14 @@ def compare_runs(prop, A, B, steps, what, col, replay, cellfn, check_draws=True,
         sig = {"kind": st["k"], "via": st.get("via", "-"), "what": what}
         if "op" in st:
             sig["op"] = st["op"]["fam"] + "." + st["op"]["type"]
+        # A request whose operator size was written for the cutoffs of the leading run (channels, POVMs, fixed-size
+        # custom operators on modes) is a different request in a twin whose modes currently have other cutoffs - which
+        # cutoff a mode has is representation, not physics.  Such a step cannot be compared; nor can what follows.
+        if i > 0 and (st["k"] in ("kraus", "povm") or (st["k"] == "apply" and st.get("op", {}).get("type") == "Custom")):
+            da, db = A[i - 1].get("dims") or {}, B[i - 1].get("dims") or {}
+            if any(da.get(t) != db.get(t) for t in st.get("targets", [])):
+                col.add([INC(prop, "twin-cutoffs-differ", cell)], replay)
+                return
         if a["raised"] != b["raised"]:
             sig["exc"] = a["exc"] or b["exc"]
             sig["frame"] = a["frame"] or b["frame"]
